@@ -347,6 +347,46 @@ Proof.
     rewrite Eo1, Eo2. apply (I6 y1 y2 Hy1 Hy2). rewrite <- (RidOf x1 y1 Ex1 Eb1), <- (RidOf x2 y2 Ex2 Eb2). exact X.
 Qed.
 
+Lemma inv_brs_map s s' g : s_brs s' = map g (s_brs s) ->
+  (forall y, r_op (g y) = r_op y /\ r_xid (g y) = r_xid y /\ r_b (g y) = r_b y /\
+             (r_db (g y) = r_db y \/ r_db (g y) = srv_kill (r_db y))) ->
+  s_jour s' = s_jour s -> s_nreg s' = s_nreg s -> s_nop s' = s_nop s -> Inv E s -> Inv E s'.
+Proof.
+  intros B G J R O [I1 I2 I3 I4 I5 I6].
+  assert (RidOf : forall y, rid (g y) = rid y) by (intro y; destruct (G y) as (_ & H1 & H2 & _); unfold rid; now rewrite H1, H2).
+  split; rewrite ?B, ?R, ?O.
+  - intros x Hx. apply in_map_iff in Hx. destruct Hx as (y & <- & Hy). destruct (G y) as (Eo & Ex & Eb & Db).
+    destruct (I1 y Hy) as (q & A & Bq). exists q. unfold tr. rewrite J, RidOf. split; [exact A|].
+    destruct Db as [-> | ->]; [assumption|now apply agree_kill].
+  - intros x Hx. apply in_map_iff in Hx. destruct Hx as (y & <- & Hy). destruct (G y) as (_ & _ & Eb & _). rewrite Eb. exact (I2 y Hy).
+  - intros id N H. unfold tr. rewrite J. apply (I3 id N). intros y Hy Y.
+    apply (H (g y)); [now apply in_map|]. now rewrite RidOf.
+  - intros x Hx. apply in_map_iff in Hx. destruct Hx as (y & <- & Hy). destruct (G y) as (Eo & _). rewrite Eo. exact (I4 y Hy).
+  - rewrite map_map. rewrite (map_ext _ r_op); [exact I5|]. intro y. now destruct (G y).
+  - intros x1 x2 H1 H2 X. apply in_map_iff in H1, H2. destruct H1 as (y1 & <- & Hy1), H2 as (y2 & <- & Hy2).
+    destruct (G y1) as (E1 & _), (G y2) as (E2 & _). rewrite E1, E2. apply (I6 y1 y2 Hy1 Hy2). now rewrite !RidOf in X.
+Qed.
+
+Lemma force_one_inv s c : Inv E s -> Inv E (force_one s c).
+Proof.
+  intro I. unfold force_one.
+  set (rel := if c_kept (get_cst s c) then c_cur (get_cst s c) else None).
+  apply (inv_brs_map s _ (fun y => let y1 := if Nat.eqb (r_conn y) c
+              then {| r_op := r_op y; r_xid := r_xid y; r_b := r_b y; r_conn := r_conn y;
+                      r_db := srv_kill (r_db y); r_kept := r_kept y; r_fin := r_fin y; r_sfail := r_sfail y |} else y in
+              match rel with Some o => if Nat.eqb (r_op y1) o then unkeep y1 else y1 | None => y1 end)); auto.
+  - cbn [s_brs]. unfold kill_conn, upd_br. destruct rel; [rewrite map_map|]; apply map_ext; intro y; reflexivity.
+  - intro y. destruct rel; destruct (Nat.eqb (r_conn y) c); cbn;
+      repeat match goal with |- context[Nat.eqb ?a ?b] => destruct (Nat.eqb a b); cbn end; auto.
+Qed.
+
+Lemma do_check_inv s e : Inv E s -> Inv E (do_check E s e).
+Proof.
+  intro I. unfold do_check. destruct (e_detach E); [|now apply step_skip].
+  apply step_skip. generalize (filter (due s e) (seq 0 (s_nconn s))). intro l. revert s I.
+  induction l as [|c l IH]; intros s I; cbn [fold_left]; [assumption|]. apply IH. now apply force_one_inv.
+Qed.
+
 Lemma retire_inv s c : Inv E s -> Inv E (retire_conn s c).
 Proof.
   intro I. unfold retire_conn. destruct (existsb (Nat.eqb c) (s_gone s)); [assumption|].
@@ -441,7 +481,7 @@ Proof.
   destruct (I1 r Fin) as (q & A & B).
   set (strg := stranger && is_prepared (r_db r)).
   set (c := if commit then COMMIT else ROLLBACK).
-  set (sk := if strg then close_conn (set_brs (add_ev s (EKill (r_conn r))) (upd_br unkeep t (kill_conn (r_conn r) (s_brs s)))) (r_conn r) else s).
+  set (sk := if strg then (if existsb (Nat.eqb (r_conn r)) (s_closed s) then set_brs s (upd_br unkeep t (kill_conn (r_conn r) (s_brs s))) else close_conn (set_brs (add_ev s (EKill (r_conn r))) (upd_br unkeep t (kill_conn (r_conn r) (s_brs s)))) (r_conn r)) else s).
   set (d := if strg then srv_kill (r_db r) else r_db r).
   set (kept := if strg then false else r_kept r).
   set (conn := if kept then r_conn r else s_nconn sk).
@@ -459,11 +499,11 @@ Proof.
   set (se := emit sb conn id trc).
   set (cs := get_cst se conn).
   set (rel := if kept && c_kept cs then c_cur cs else None).
-  set (sr := if kept && c_kept cs then set_conn se conn {| c_active := c_active cs; c_kept := false; c_cur := c_cur cs |} else se).
+  set (sr := if kept && c_kept cs then set_conn se conn {| c_active := c_active cs; c_kept := false; c_cur := c_cur cs; c_pt := c_pt cs |} else se).
   assert (Jr : s_jour sr = List.rev (map (fun x => ESql conn (fst x) id (snd x)) trc) ++ s_jour sk).
   { unfold sr, se, sb. destruct (kept && c_kept cs), kept; reflexivity. }
   assert (Jk : forall id', cmds_of id' (List.rev (s_jour sk)) = cmds_of id' (List.rev (s_jour s))).
-  { intro id'. unfold sk. destruct strg; [|reflexivity]. cbn [close_conn set_brs add_ev s_jour]. rewrite cmds_rev_cons. cbn [cmds_of]. now rewrite app_nil_r. }
+  { intro id'. unfold sk. destruct strg; [|reflexivity]. destruct (existsb _ _); [reflexivity|]. cbn [close_conn set_brs add_ev s_jour]. rewrite cmds_rev_cons. cbn [cmds_of]. now rewrite app_nil_r. }
   assert (Tr : forall id', tr sr id' = tr s id' ++ (if bytes_eqb id id' then trc else [])).
   { intro id'. unfold tr. rewrite Jr, cmds_rev_emit, Jk. reflexivity. }
   assert (Lst : upd_br (fun x => set_db_kept d' (r_kept x) true x) t (s_brs sr) = 
@@ -471,13 +511,13 @@ Proof.
                 \/ True) by (right; exact I).
   clear Lst.
   assert (Bs : s_brs sr = if strg then upd_br unkeep t (kill_conn (r_conn r) (s_brs s)) else s_brs s).
-  { unfold sr, se, sb, sk. destruct (kept && c_kept cs), kept, strg; reflexivity. }
+  { unfold sr, se, sb, sk. destruct (kept && c_kept cs), kept, strg; try reflexivity; destruct (existsb _ _); reflexivity. }
   assert (Final : (match rel with Some o => upd_br unkeep o (upd_br (fun x => set_db_kept d' (r_kept x) true x) t (s_brs sr))
                    | None => upd_br (fun x => set_db_kept d' (r_kept x) true x) t (s_brs sr) end)
                   = p2_list strg (r_conn r) t d' rel (s_brs s)).
   { unfold p2_list. rewrite Bs. reflexivity. }
-  assert (Nr : s_nreg sr = s_nreg s) by (unfold sr, se, sb, sk; destruct (kept && c_kept cs), kept, strg; reflexivity).
-  assert (No : s_nop sr = s_nop s) by (unfold sr, se, sb, sk; destruct (kept && c_kept cs), kept, strg; reflexivity).
+  assert (Nr : s_nreg sr = s_nreg s) by (unfold sr, se, sb, sk; destruct (kept && c_kept cs), kept, strg; try reflexivity; destruct (existsb _ _); reflexivity).
+  assert (No : s_nop sr = s_nop s) by (unfold sr, se, sb, sk; destruct (kept && c_kept cs), kept, strg; try reflexivity; destruct (existsb _ _); reflexivity).
   change (Inv E (finish (set_brs sr match rel with Some o => upd_br unkeep o (upd_br (fun x => set_db_kept d' (r_kept x) true x) t (s_brs sr))
                    | None => upd_br (fun x => set_db_kept d' (r_kept x) true x) t (s_brs sr) end) (OP2 (if dead then false else res_ok (snd cr0))))).
   rewrite Final.
@@ -510,7 +550,7 @@ Qed.
 
 Lemma step_inv s o : Inv E s -> Inv E (step E s o).
 Proof.
-  destruct o; cbn [step]; [apply step_auto|apply step_local|apply step_p2| | |apply step_skip].
+  destruct o; cbn [step]; [apply step_auto|apply step_local|apply step_p2| | |apply do_check_inv|apply step_skip].
   - destruct (s_out s) as [|[] ?]; try now apply step_skip. now apply step_auto.
   - destruct (lookup target (s_opconn s)); [|now apply step_skip].
     destruct (existsb _ _); [now apply step_skip|]. intro I. apply step_skip. now apply retire_inv.
@@ -598,6 +638,9 @@ Proof.
   intros C H. rewrite rev_app_distr, rev_involutive, reg_scan_app, H. now apply reg_scan_nostart.
 Qed.
 
+Lemma fold_force_jour l : forall s, s_jour (fold_left force_one l s) = s_jour s.
+Proof. induction l as [|c l IH]; intro s; cbn [fold_left]; [reflexivity|]. now rewrite IH. Qed.
+
 Definition reg_inv (s : st) : Prop := reg_scan None (List.rev (s_jour s)) = Some None.
 
 Lemma reg_step E s o : reg_inv s -> reg_inv (step E s o).
@@ -626,15 +669,15 @@ Proof.
       rewrite rev_app_distr, rev_involutive. cbn [List.rev map fst snd].
       rewrite <- app_assoc, reg_scan_app. rewrite H. rewrite <- app_comm_cons, app_nil_l, reg_scan_reg, reg_scan_start.
       now apply reg_scan_nostart. }
-  destruct o as [g via slow| |t c x|g slow|t|]; cbn [step].
+  destruct o as [g via slow| |t c x|g slow|t|e|]; cbn [step].
   - apply AU.
   - unfold do_local. apply PB. cbn [finish emit set_opconn bump_conn s_jour]. apply reg_emit; [reflexivity|exact H].
   - unfold do_p2. destruct (find_br t (s_brs s)) as [r|]; [|exact H].
     destruct ((is_prepared (r_db r) || negb c && r_sfail r) && negb (r_fin r)); [|exact H].
     set (strg := x && is_prepared (r_db r)).
-    set (sk := if strg then close_conn (set_brs (add_ev s (EKill (r_conn r))) (upd_br unkeep t (kill_conn (r_conn r) (s_brs s)))) (r_conn r) else s).
+    set (sk := if strg then (if existsb (Nat.eqb (r_conn r)) (s_closed s) then set_brs s (upd_br unkeep t (kill_conn (r_conn r) (s_brs s))) else close_conn (set_brs (add_ev s (EKill (r_conn r))) (upd_br unkeep t (kill_conn (r_conn r) (s_brs s)))) (r_conn r)) else s).
     assert (Hk : reg_scan None (List.rev (s_jour sk)) = Some None).
-    { unfold sk. destruct strg; [|exact H]. cbn [close_conn set_brs add_ev s_jour List.rev]. now rewrite reg_scan_app, H. }
+    { unfold sk. destruct strg; [|exact H]. destruct (existsb _ _); [exact H|]. cbn [close_conn set_brs add_ev s_jour List.rev]. now rewrite reg_scan_app, H. }
     clearbody sk.
     destruct (p2_local _ _ _ _ _ _) as [[k rs] d1] eqn:P.
     assert (K0 : count_cmd START [(k, rs)] = 0%nat).
@@ -650,6 +693,8 @@ Proof.
   - destruct (s_out s) as [|[] ?]; try exact H. apply AU.
   - destruct (lookup t (s_opconn s)); [|exact H]. destruct (existsb _ _); [exact H|].
     cbn [finish s_jour]. unfold retire_conn. destruct (existsb _ _); exact H.
+  - unfold do_check. destruct (e_detach E); [|exact H]. cbn [finish s_jour].
+    now rewrite fold_force_jour.
   - exact H.
 Qed.
 
@@ -671,3 +716,13 @@ Proof. intro H. unfold retire_conn. destruct (existsb _ _); [auto|]. rewrite H. 
 (* whatever is closed, a PREPARED branch stays PREPARED *)
 Lemma kill_keeps_prepared d : is_prepared (srv_kill d) = is_prepared d.
 Proof. destruct d as [[[] []]|]; reflexivity. Qed.
+
+(* ================================================================ the two-phase timeout checker *)
+
+(* a held connection whose branch was just PREPARED is not due within the hold time, and a
+   connection still in phase one is never due *)
+Lemma due_hold s c : c_pt (get_cst s c) = PPrep -> due s false c = false.
+Proof. intro H. unfold due. rewrite H. apply andb_false_r. Qed.
+
+Lemma due_phase_one s e c : c_pt (get_cst s c) = PZero -> due s e c = false.
+Proof. intro H. unfold due. rewrite H. apply andb_false_r. Qed.
